@@ -217,6 +217,32 @@ pub fn guarded<R>(f: impl FnOnce() -> R) -> (Option<R>, Stop) {
     }
 }
 
+/// Set while a session runs (between the load and the end of `env.run()`): the only stretch in which
+/// a case thread that uses CPU without any progress counts as spinning.
+static SESSION_RUNNING: std::sync::atomic::AtomicBool = std::sync::atomic::AtomicBool::new(false);
+/// A spinning session was seen in this process (its thread cannot be killed and keeps a core busy).
+static SPIN_SEEN: std::sync::atomic::AtomicBool = std::sync::atomic::AtomicBool::new(false);
+
+pub fn spin_seen() -> bool {
+    SPIN_SEEN.load(std::sync::atomic::Ordering::SeqCst)
+}
+
+/// CPU time used so far by the thread behind `handle` (seconds).
+fn thread_cpu_s<R>(handle: &std::thread::JoinHandle<R>) -> Option<f64> {
+    use std::os::unix::thread::JoinHandleExt;
+    let mut clk: libc::clockid_t = 0;
+    let mut ts = libc::timespec { tv_sec: 0, tv_nsec: 0 };
+    unsafe {
+        if libc::pthread_getcpuclockid(handle.as_pthread_t(), &mut clk) != 0 || libc::clock_gettime(clk, &mut ts) != 0 {
+            return None;
+        }
+    }
+    Some(ts.tv_sec as f64 + ts.tv_nsec as f64 * 1e-9)
+}
+
+/// Marker in the error text of `fresh_thread` for a session that spins.
+pub const SPIN_MARK: &str = "session spins without progress";
+
 /// Run `f` on a fresh thread (clean thread-locals: symbol table, features, minimal flag, line
 /// tracker), with the miette handler `main.rs` installs.
 pub fn fresh_thread<R: Send + 'static>(f: impl FnOnce() -> R + Send + 'static) -> Result<R, String> {
@@ -233,12 +259,45 @@ pub fn fresh_thread<R: Send + 'static>(f: impl FnOnce() -> R + Send + 'static) -
     // A case thread that neither finishes nor dies (blocked on a lock, say) cannot be killed: the
     // worker gives up with a distinct exit status; the master reports that as INCONCLUSIVE (what
     // had been found before is in the part file). Infrastructure, never a verdict.
+    //
+    // One kind of "never comes back" is decided, from the thread's state rather than from the
+    // clock on the wall: while a session runs, every iteration of lace's run loop and of the
+    // debugger's own loop bumps a process-wide counter (hook H7). A session thread that has burnt
+    // `VERIF_SPIN_CPU_S` (20) seconds of its own CPU time without a single such iteration - no
+    // instruction executed, no command fetched, fuel untouched - is spinning somewhere else: that
+    // is reported to the caller as a failed session (the thread is left behind; the worker ends
+    // after recording the case).
     let limit = std::env::var("VERIF_CASE_LIMIT_S").ok().and_then(|s| s.parse().ok()).unwrap_or(300u64);
-    match rx.recv_timeout(std::time::Duration::from_secs(limit)) {
-        Ok(()) | Err(std::sync::mpsc::RecvTimeoutError::Disconnected) => {}
-        Err(std::sync::mpsc::RecvTimeoutError::Timeout) => {
-            log(&format!("harness: a case has not come back for {limit} s (thread blocked?); this worker gives up"));
-            std::process::exit(86);
+    let spin_cpu: f64 = std::env::var("VERIF_SPIN_CPU_S").ok().and_then(|s| s.parse().ok()).unwrap_or(20.0);
+    let t0 = std::time::Instant::now();
+    let mut last_progress = lace::verif::progress();
+    let mut cpu_at_progress: Option<f64> = None;
+    loop {
+        match rx.recv_timeout(std::time::Duration::from_millis(if t0.elapsed().as_millis() < 2000 { 2000 } else { 500 })) {
+            Ok(()) | Err(std::sync::mpsc::RecvTimeoutError::Disconnected) => break,
+            Err(std::sync::mpsc::RecvTimeoutError::Timeout) => {
+                if SESSION_RUNNING.load(std::sync::atomic::Ordering::SeqCst) {
+                    let p = lace::verif::progress();
+                    let cpu = thread_cpu_s(&handle);
+                    if p != last_progress || cpu_at_progress.is_none() {
+                        last_progress = p;
+                        cpu_at_progress = cpu;
+                    } else if let (Some(now), Some(then)) = (cpu, cpu_at_progress) {
+                        if now - then >= spin_cpu {
+                            SPIN_SEEN.store(true, std::sync::atomic::Ordering::SeqCst);
+                            SESSION_RUNNING.store(false, std::sync::atomic::Ordering::SeqCst);
+                            log(&format!("harness: a session has used {:.0} s of CPU time without one iteration of the run loop or of the debugger's loop: it spins", now - then));
+                            return Err(format!("{SPIN_MARK}: {:.0} s of CPU time without one iteration of the run loop or of the debugger's own loop (no instruction executed, no command fetched, fuel untouched)", now - then));
+                        }
+                    }
+                } else {
+                    cpu_at_progress = None;
+                }
+                if t0.elapsed().as_secs() >= limit {
+                    log(&format!("harness: a case has not come back for {limit} s (thread blocked?); this worker gives up"));
+                    std::process::exit(86);
+                }
+            }
         }
     }
     handle.join().map_err(|p| {
@@ -521,7 +580,9 @@ pub fn run_session(load: Load, spec: RunSpec) -> Session {
         if let Some(mut env) = env {
             session.loaded = Some(Snapshot::of(&env));
             lace::verif::set_fuel(Some(spec.fuel));
+            SESSION_RUNNING.store(true, std::sync::atomic::Ordering::SeqCst);
             let (_, stop) = guarded(|| env.run());
+            SESSION_RUNNING.store(false, std::sync::atomic::Ordering::SeqCst);
             let ticks = lace::verif::ticks();
             let inner_ticks = lace::verif::inner_ticks();
             let execs = lace::verif::execs();
@@ -553,7 +614,7 @@ pub fn run_session(load: Load, spec: RunSpec) -> Session {
             asm: None,
             loaded: None,
             outcome: Some(Outcome {
-                stop: Stop::Panic(msg, "<thread>".into()),
+                stop: if msg.starts_with(SPIN_MARK) { Stop::Panic(msg, "<spin>".into()) } else { Stop::Panic(msg, "<thread>".into()) },
                 stdout: vec![],
                 stderr: vec![],
                 input_left: 0,
